@@ -152,6 +152,7 @@ func runC42(c *Ctx) {
 			}
 		}
 		c.CheckAt("accept-exclusive", "call-xor-append@ThenAccept", c.P.Pos(ta.Pos()), ok, detail)
+		checkRegisterDecidedUnderLock(c, lc, ta)
 	}
 	if tc == nil {
 		c.Undecided("anchor", "future.ThenCompose", "not found")
